@@ -1,0 +1,156 @@
+//! Verification hook driver. Compiled only with `--cfg dandavison_delta_verif`.
+//!
+//! When the environment variable DELTA_VERIF_HOOK is set, `main` hands control to
+//! `run()`: a line protocol on stdin/stdout that exposes internal functions to the
+//! correspondence checks in /verif. One request line gives exactly one response line.
+//!
+//! Request:  `<module>.<op> <field> <field> ...`   (fields separated by one space)
+//! Fields:   strings are `x<hex of utf-8 bytes>` (empty string = `x`), numbers are decimal.
+//! Response: op specific; `PANIC x<hex msg>` if the op panicked; `ERR x<hex msg>` on a
+//!           malformed request.
+//! `cfg <xarg> <xarg> ...` builds a Config from command-line arguments (with
+//! --no-gitconfig) and makes it the current one for later ops; response `ok`.
+#![allow(dead_code)]
+
+use std::cell::RefCell;
+use std::io::{BufRead, Write};
+use std::panic::{catch_unwind, AssertUnwindSafe};
+
+use crate::cli;
+use crate::config::Config;
+use crate::env::DeltaEnv;
+
+pub mod ansi;
+pub mod blame;
+pub mod edits;
+pub mod grep;
+pub mod headers;
+pub mod linenum;
+pub mod machine;
+pub mod style;
+pub mod superimpose;
+pub mod text;
+pub mod wrap;
+
+thread_local! {
+    static CONFIG: RefCell<Option<&'static Config>> = const { RefCell::new(None) };
+}
+
+pub fn enabled() -> bool {
+    std::env::var_os("DELTA_VERIF_HOOK").is_some()
+}
+
+/// The current Config (set by the `cfg` request; default: no arguments).
+pub fn config() -> &'static Config {
+    CONFIG.with(|c| {
+        let mut c = c.borrow_mut();
+        if c.is_none() {
+            *c = Some(make_config(&[]));
+        }
+        c.unwrap()
+    })
+}
+
+pub fn make_config(args: &[String]) -> &'static Config {
+    let mut all: Vec<String> = vec!["delta".into(), "--no-gitconfig".into()];
+    all.extend(args.iter().cloned());
+    let env = DeltaEnv::default();
+    let opt = cli::Opt::from_iter_and_git_config(&env, all, None);
+    // Configs are leaked: handlers keep `&'static` references; the driver is short-lived.
+    Box::leak(Box::new(Config::from(opt)))
+}
+
+// ---------------------------------------------------------------- field encoding
+
+pub fn hex(s: &str) -> String {
+    hexb(s.as_bytes())
+}
+
+pub fn hexb(b: &[u8]) -> String {
+    let mut out = String::with_capacity(1 + 2 * b.len());
+    out.push('x');
+    for byte in b {
+        out.push_str(&format!("{byte:02x}"));
+    }
+    out
+}
+
+pub fn unhexb(f: &str) -> Result<Vec<u8>, String> {
+    let h = f.strip_prefix('x').ok_or_else(|| format!("not a string field: {f}"))?;
+    if h.len() % 2 != 0 {
+        return Err(format!("odd hex length: {f}"));
+    }
+    (0..h.len())
+        .step_by(2)
+        .map(|i| u8::from_str_radix(&h[i..i + 2], 16).map_err(|e| e.to_string()))
+        .collect()
+}
+
+pub fn unhex(f: &str) -> Result<String, String> {
+    String::from_utf8(unhexb(f)?).map_err(|e| e.to_string())
+}
+
+pub fn num(f: &str) -> Result<usize, String> {
+    f.parse::<usize>().map_err(|e| format!("{f}: {e}"))
+}
+
+// ---------------------------------------------------------------- dispatch
+
+fn dispatch(line: &str) -> Result<String, String> {
+    let mut fields = line.split(' ');
+    let op = fields.next().unwrap_or("");
+    let args: Vec<&str> = fields.collect();
+    if op == "cfg" {
+        let a = args.iter().map(|f| unhex(f)).collect::<Result<Vec<_>, _>>()?;
+        let cfg = make_config(&a);
+        CONFIG.with(|c| *c.borrow_mut() = Some(cfg));
+        return Ok("ok".into());
+    }
+    let (module, name) = op.split_once('.').ok_or_else(|| format!("bad op: {op}"))?;
+    match module {
+        "ansi" => ansi::handle(name, &args),
+        "blame" => blame::handle(name, &args),
+        "edits" => edits::handle(name, &args),
+        "grep" => grep::handle(name, &args),
+        "headers" => headers::handle(name, &args),
+        "linenum" => linenum::handle(name, &args),
+        "machine" => machine::handle(name, &args),
+        "style" => style::handle(name, &args),
+        "superimpose" => superimpose::handle(name, &args),
+        "text" => text::handle(name, &args),
+        "wrap" => wrap::handle(name, &args),
+        _ => Err(format!("unknown module: {module}")),
+    }
+}
+
+pub fn run() -> std::io::Result<i32> {
+    // Panics are reported on the response line; keep stderr quiet.
+    std::panic::set_hook(Box::new(|_| {}));
+    let stdin = std::io::stdin();
+    let stdout = std::io::stdout();
+    let mut out = std::io::BufWriter::new(stdout.lock());
+    for line in stdin.lock().lines() {
+        let line = line?;
+        let line = line.trim_end_matches(['\r', '\n']);
+        if line.is_empty() {
+            continue;
+        }
+        let resp = match catch_unwind(AssertUnwindSafe(|| dispatch(line))) {
+            Ok(Ok(s)) => s,
+            Ok(Err(e)) => format!("ERR {}", hex(&e)),
+            Err(p) => {
+                let msg = if let Some(s) = p.downcast_ref::<&str>() {
+                    s.to_string()
+                } else if let Some(s) = p.downcast_ref::<String>() {
+                    s.clone()
+                } else {
+                    "?".to_string()
+                };
+                format!("PANIC {}", hex(&msg))
+            }
+        };
+        writeln!(out, "{resp}")?;
+        out.flush()?;
+    }
+    Ok(0)
+}
